@@ -7,6 +7,7 @@ import Stingray.Driver.Value
 import Stingray.Driver.Copybook
 import Stingray.Driver.History
 import Stingray.Driver.RefFormat
+import Stingray.Driver.Json
 /-!
 Line protocol driver: `lake env lean --run Driver.lean < requests > answers`.
 One request per line: `<family> <op> <args…>` separated by single spaces; one answer line each.
@@ -30,6 +31,7 @@ def dispatch (st : DState) (line : String) : DState × String :=
   | "CPY" :: rest => (st, Cpy.handle rest)
   | "HIS" :: rest => (st, His.handle rest)
   | "REF" :: rest => (st, Ref.handle rest)
+  | "JSN" :: rest => (st, Jsn.handle rest)
   | _ => (st, "bad-op")
 
 partial def loop (h : IO.FS.Stream) (out : IO.FS.Stream) (st : DState) : IO Unit := do
